@@ -379,13 +379,19 @@ namespace verif
             {
                 start(handler, threads, [](Pistache::Http::Endpoint::Options&) {});
             }
-            void stop()
+            // shutdown() alone, the endpoint object stays: what the framework's threads do after
+            // shutdown() itself is observable (the destructor signals the shutdown once more)
+            void shutdown_only()
             {
                 if (running)
                 {
                     ep->shutdown();
                     running = false;
                 }
+            }
+            void stop()
+            {
+                shutdown_only();
                 ep.reset();
             }
             ~Server() { stop(); }
